@@ -26,6 +26,11 @@ CHECKS = {
         "steps": [vc("c04", "trees", 50000, 2400000)],
         "assumptions": L1_ASSUME,
     },
+    "C06": {
+        "packages": ["vchecks"],
+        "steps": [vc("c06", "derive", 60000, 3200000)],
+        "assumptions": L1_ASSUME + ["darling_core::derive::* is what the proc-macro entry points in macro/src/lib.rs call after syn parsing; inputs are items syn accepts"],
+    },
     "C05": {
         "packages": ["vchecks"],
         "steps": [vc("c05", "histories", 40000, 1600000)],
